@@ -121,7 +121,9 @@ class Graph:
         return (o1, o2)
 
     def out_edges(self, ck, sk):
-        return list(self.edges.get(ck, {}).get(sk, {}).values())
+        # TLC's workers emit in arbitrary order: fixed order, so that VERIF_SEED alone determines the random chains
+        d = self.edges.get(ck, {}).get(sk, {})
+        return [d[k] for k in sorted(d)]
 
 
 # ---------------------------------------------------------------------------------------------------------------
